@@ -86,6 +86,20 @@ def pixel_input(case):
         if form == "iter_dict_unsorted":
             fr = [{k: v.values for k, v in f.items()} for f in fr]
         return iter(fr), kw
+    if form == "dask":
+        # a dask data frame whose partitions are the chunks of the case (create() reads the partitions in order)
+        import dask.dataframe as dd
+        parts = [c for c in split(px, case["chunks"]) if c] or [[]]
+        f = frame(px)
+        if len(px) == 0 or len(parts) == 1:
+            return dd.from_pandas(f.reset_index(drop=True), npartitions=1), {"ordered": True}
+        f = f.reset_index(drop=True)
+        cuts, acc = [0], 0
+        for c in parts:
+            acc += len(c)
+            cuts.append(acc)
+        cuts[-1] = len(f) - 1                              # dask divisions: the last one is the last label, inclusive
+        return dd.from_pandas(f, npartitions=1).repartition(divisions=sorted(set(cuts))), {"ordered": True}
     if form == "array":
         from cooler.create import ArrayLoader
         a = np.zeros((n, n), dtype=np.int64 if scale == 1 else np.float64)
